@@ -73,7 +73,7 @@ func listenScenario(sp listenSpec) *explore.Scenario {
 				e = fmt.Sprintf("err%d", i)
 			}
 			script = append(script, notification("op1", fmt.Sprintf("v%d", i), e))
-			script = append(script, notification("other", "y", ""))
+			script = append(script, notification("other", "y", "error of another request"))
 		}
 		sub := hx.NewScriptSub("notifications", map[string][]*message.Message{"reply": script})
 		finished := 0
